@@ -96,6 +96,14 @@ def write_sites(sx: SCtx):
 def _key_is_index(c, key, kind) -> bool:
     """condition c holds whenever the key written is the index column (resp. a cache-input attribute name)"""
     parts = list(c[2]) if (c[:1] == ("bool",) and c[1] == "or") else [c]
+    # `key in (a, b, c)` over a display is `key == a or key == b or key == c`
+    flat = []
+    for p in parts:
+        if p[:1] == ("cmp",) and p[1] == "in" and p[3][:1] in (("tuple",), ("list",), ("set",)):
+            flat += [("cmp", "==", p[2], x) for x in p[3][1]]
+        else:
+            flat.append(p)
+    parts = flat
     if kind == "attrname":
         names = set()
         for p in parts:
